@@ -4,7 +4,7 @@
    them Python) is decided by the three-way correspondence/oracle run, see DESIGN §7 C07 — the
    theorems named *_partial below say what part of the full statement is proved. *)
 From OptreeModel Require Import Base Tree Flatten Unflatten Spec.
-From OptreeProofs Require Import SpecProofs OrderProofs PrefixOrder JoinOrder FlattenGood.
+From OptreeProofs Require Import SpecProofs OrderProofs PrefixOrder JoinOrder FlattenGood UpToProofs.
 
 (* reflexive; comparing a treespec with itself never is a strict prefix *)
 Theorem C07_prefix_refl :
@@ -59,6 +59,16 @@ Theorem C07_flatten_gives_good_treespecs :
   exists s, sspec_of sp = Some s /\ good (stree_of s) = true.
 Proof. exact flatten_good. Qed.
 Print Assumptions C07_flatten_gives_good_treespecs.
+
+(* flatten_up_to and flatten meet: a treespec applied to the tree it came from returns exactly that
+   tree's leaves (every configuration without a predicate, every well-formed tree) — the base case of
+   the partition law and the tie between FlattenUpTo and the flatten of C01–C03 *)
+Theorem C07_flatten_up_to_self :
+  forall c o ls sp s,
+    c_pred c = None -> wf_obj o = true -> flatten c o = Ok (ls, sp) -> sspec_of sp = Some s ->
+    ss_flatten_up_to (c_reg c) s o = Ok ls.
+Proof. exact flatten_up_to_self. Qed.
+Print Assumptions C07_flatten_up_to_self.
 
 Example C07_example :
   let c := {| c_nil := false; c_ns := 0; c_pred := None; c_reg := []; c_ins := []; c_limit := 1000 |} in
